@@ -196,6 +196,13 @@ class World:
             return self.world_group
         return group
 
+    def _check_contiguous(self, kind, tensors):
+        # NCCL rejects non-contiguous tensors, gloo silently sends the underlying storage: either way the
+        # caller broke the contract of the collective
+        for t in tensors:
+            if isinstance(t, torch.Tensor) and not t.is_contiguous():
+                self.errors.append(('non-contiguous', _tls.rank, kind, tuple(t.shape), tuple(t.stride())))
+
     def _join(self, group, desc, payload, compute):
         """Join the next slot of `group`; returns the future of this rank."""
         me = _tls.rank
@@ -236,6 +243,7 @@ class World:
         if group is NON_MEMBER:
             return self._nonmember('all_reduce')
         self.yield_point()
+        self._check_contiguous('all_reduce', [tensor])
         desc = ('all_reduce', tuple(tensor.shape), str(tensor.dtype), -1)
 
         def compute(slot):
@@ -253,6 +261,7 @@ class World:
         if group is NON_MEMBER:
             return self._nonmember('broadcast')
         self.yield_point()
+        self._check_contiguous('broadcast', [tensor])
         g = self._members(group)
         if src not in g.ranks:
             self.errors.append(('root-not-member', _tls.rank, g.ranks, src))
@@ -273,6 +282,7 @@ class World:
             return self._nonmember('all_gather')
         self.yield_point()
         g = self._members(group)
+        self._check_contiguous('all_gather', [tensor] + list(tensor_list))
         desc = ('all_gather', tuple(tensor.shape), str(tensor.dtype), -1)
 
         def compute(slot):
@@ -289,6 +299,7 @@ class World:
             return self._nonmember('reduce_scatter')
         self.yield_point()
         g = self._members(group)
+        self._check_contiguous('reduce_scatter', [output] + list(input_list))
         desc = ('reduce_scatter', tuple(output.shape), str(output.dtype), -1)
 
         def compute(slot):
@@ -453,6 +464,8 @@ def patched():
             dist.get_rank = _sim_get_rank
             dist.get_world_size = _sim_get_world_size
             dist.get_process_group_ranks = _sim_get_process_group_ranks
+            _ORIG['ProcessGroup'] = dist.ProcessGroup
+            dist.ProcessGroup = SimGroup       # `isinstance(g, torch.distributed.ProcessGroup)` in kfac.gpt_neox
             torch._C.Future.wait = _patched_wait
         _patch_depth += 1
     try:
@@ -464,6 +477,7 @@ def patched():
                 for nm in _NAMES + ['is_initialized', 'get_rank', 'get_world_size',
                                     'get_process_group_ranks']:
                     setattr(dist, nm, _ORIG[nm])
+                dist.ProcessGroup = _ORIG['ProcessGroup']
                 torch._C.Future.wait = _ORIG['future_wait']
 
 
